@@ -643,6 +643,8 @@ def instr_sweep(ctx, want, configs=None, key='instruction_delivery_sweep'):
     SWEEP_CONFIGS = configs or sweep_configs(ctx.tier)
     with ThreadPoolExecutor(max_workers=12) as ex:
         results = list(ex.map(sweep_one, SWEEP_CONFIGS))
+    # a configuration that did not reach its end without any complaint was cut off (a starved machine): once more, alone
+    results = [sweep_one(r['cfg'], timeout=600) if (r['end'] is None and not any(x['kinds'] for x in r['rows'])) else r for r in results]
     hits, total, incomplete, per = {}, 0, [], {}
     for res in results:
         e, o, pre = cfg = res['cfg']
@@ -729,6 +731,7 @@ def close_sweep(ctx, want, configs=None, key='instruction_close_sweep'):
         CLOSE_CONFIGS = [('q', '-')] + [(o, pre) for o in 'qwf' for pre in pres]
     with ThreadPoolExecutor(max_workers=10) as ex:
         results = list(ex.map(close_one, CLOSE_CONFIGS))
+    results = [close_one(r['cfg'], timeout=600) if (r['end'] is None and not any(x['kinds'] for x in r['rows'])) else r for r in results]
     hits, total, incomplete, per = {}, 0, [], {}
     for res in results:
         o, pre = cfg = res['cfg']
